@@ -421,12 +421,14 @@ def fam_filter(rng, n):
                 msgs.extend(rand_packets(rng, ex, 1))
         S = [v for v in (5, 7, 9, 10) if rng.random() < 0.6] + [v for v in (0, 6, 11, 77, 65535) if rng.random() < 0.3]
         prefix = []
+        ends_in_error = False
         for m in msgs:
             if msg_version(m) not in S:
                 break
             prefix.append(m)
             if "raw" in m:
-                break          # an unknown (allowed) version ends the result with an error
+                ends_in_error = True   # an unknown (allowed) version ends the result with an error carrying the rest
+                break
         ops = []
         for pid in (0, 1, 2):
             ops.append(op_new(pid, allowed="all"))
@@ -441,7 +443,8 @@ def fam_filter(rng, n):
             ops.append(op_parse(2, hexs="", want=[]))
         a = {"op": "assert_filter", "a": 0, "b": 1}
         # the prefix parser sees the history too, so compare only the LAST call's packets: done in the driver via `c`
-        a["c"] = 2
+        if not ends_in_error:
+            a["c"] = 2
         ops.append(a)
         out.append(("filter", ops))
     return out
@@ -467,6 +470,10 @@ def fam_trunc(rng, n, fracs=None):
                     ops.append(op_parse(pid, msgs=hist, want=[]))
             o = op_parse(0, msgs=pre + [last], want=[])
             o["cutfrac"] = frac
+            if v == 9 and rng.random() < 0.5:
+                # just past a flowset boundary: inside the next flowset's 4-byte header
+                o["cutbound"] = rng.randrange(0, 8)
+                o["cutdelta"] = rng.choice([1, 2, 3, 1, 2, 3, 4, 5])
             ops.append(o)
             ops.append(op_parse(1, msgs=pre, want=[]) if pre else op_parse(1, hexs="", want=[]))
             ops.append({"op": "assert_trunc", "a": 0, "b": 1, "cutlen": "last", "keep_state": v != 9})
